@@ -291,6 +291,32 @@ func idxIn(in ssa.Instruction) int { return pointAt(in).Idx }
 // block defining the value (a new loop iteration recomputes it). No other path condition is
 // tracked — this is graph reachability, not symbolic execution.
 func reach(start point, target func(ssa.Instruction) bool, cut map[edge]bool, stop func(ssa.Instruction) bool) ([]*ssa.BasicBlock, ssa.Instruction) {
+	return reachK(start, nil, target, cut, stop)
+}
+
+// reachEdge starts on a CFG edge: constants flowing into the target block's phis along that
+// edge are known from the start.
+func reachEdge(e edge, target func(ssa.Instruction) bool, cut map[edge]bool, stop func(ssa.Instruction) bool) ([]*ssa.BasicBlock, ssa.Instruction) {
+	known := map[*ssa.Phi]*ssa.Const{}
+	to := e.To()
+	for i, p := range to.Preds {
+		if p != e.From {
+			continue
+		}
+		for _, in := range to.Instrs {
+			phi, ok := in.(*ssa.Phi)
+			if !ok {
+				break
+			}
+			if c, ok := phi.Edges[i].(*ssa.Const); ok {
+				known[phi] = c
+			}
+		}
+	}
+	return reachK(point{to, 0}, known, target, cut, stop)
+}
+
+func reachK(start point, initKnown map[*ssa.Phi]*ssa.Const, target func(ssa.Instruction) bool, cut map[edge]bool, stop func(ssa.Instruction) bool) ([]*ssa.BasicBlock, ssa.Instruction) {
 	fn := start.Block.Parent()
 	// values tested more than once
 	tested := map[ssa.Value]int{}
@@ -363,7 +389,11 @@ func reach(start point, target func(ssa.Instruction) bool, cut map[edge]bool, st
 		return p
 	}
 	visited := map[state]bool{}
-	queue := []*node{{st: state{start.Block, ""}, from: start.Idx, assume: map[ssa.Value]bool{}, known: map[*ssa.Phi]*ssa.Const{}}}
+	k0 := map[*ssa.Phi]*ssa.Const{}
+	for p, c := range initKnown {
+		k0[p] = c
+	}
+	queue := []*node{{st: state{start.Block, ""}, from: start.Idx, assume: map[ssa.Value]bool{}, known: k0}}
 	first := true
 	for len(queue) > 0 {
 		n := queue[0]
